@@ -180,11 +180,13 @@ def cmp_retry(exp, res):
     n = 0
     kind = exp["kind"]
     label = "%s[%s]" % (kind, ",".join("%s@%s" % (s, st) for s, st in zip(exp["steps"], exp["stages"])))
-    if res.get("infra"):
-        raise vlib.Infra("retry scenario %s: %s" % (label, res["infra"]))
     res["writes"] = res.get("writes") or []
     res["errs"] = res.get("errs") or []
     stalled = any(e.get("safetyTimeout") for e in res["errs"])
+    if res.get("infra") and not stalled:
+        # (an attempt that stalled until the driver's 4 s safety timeout also makes the following dial fail: that is the
+        # stall's consequence, reported below, not a driver problem)
+        raise vlib.Infra("retry scenario %s: %s" % (label, res["infra"]))
     if stalled:
         return [("C19_RetryStalled", label, "an attempt did not return within the 4 s safety timeout: %s" % json.dumps(res["errs"]))], 1, True
     for e in res["errs"]:
